@@ -307,3 +307,46 @@ pub proof fn lemma_image_iter_unfold(rem: Seq<&Term>, now: int, p: int)
         assert(image_iter_seq(rem, now, p).skip(1) =~= image_iter_seq(rem.skip(1), now + 1, p));
     }
 }
+
+// ---- std pieces used by push_components (A2) ----
+#[verifier::external_type_specification]
+#[verifier::external_body]
+pub struct ExIoError(std::io::Error);
+#[verifier::external_type_specification]
+pub struct ExIoErrorKind(std::io::ErrorKind);
+/// R5: `IoError::new(kind, "text")` -> opaque helper (io::Error::new is generic over
+/// `Into<Box<dyn Error + Send + Sync>>`, which Verus cannot express); assumed not to panic
+#[verifier::external_body]
+pub fn vx_io_error(kind: std::io::ErrorKind, msg: &str) -> std::io::Error { std::io::Error::new(kind, msg) }
+pub uninterp spec fn vx_into_seq<T, I>(iter: I) -> Seq<T>;
+pub assume_specification<T, A: std::alloc::Allocator, I: IntoIterator<Item = T>>[ <Vec<T, A> as Extend<T>>::extend::<I> ](v: &mut Vec<T, A>, iter: I)
+    ensures final(v)@ == old(v)@ + vx_into_seq::<T, I>(iter);
+#[verifier::external_body]
+pub broadcast proof fn axiom_vec_into_seq<T>(v: Vec<T>)
+    ensures #[trigger] vx_into_seq::<T, Vec<T>>(v) == v@
+{}
+/// `HashSet::extend` inserts every item (under the set model A5)
+pub assume_specification<T: Eq + std::hash::Hash, S: std::hash::BuildHasher, A: std::alloc::Allocator, I: IntoIterator<Item = T>>[ <HashSet<T, S, A> as Extend<T>>::extend::<I> ](s: &mut HashSet<T, S, A>, iter: I)
+    ensures obeys_key_model::<T>() && builds_valid_hashers::<S>() ==> final(s)@ == old(s)@.union(vx_into_seq::<T, I>(iter).to_set());
+pub broadcast proof fn axiom_set_extend_vec(v: Vec<Term>)
+    ensures #[trigger] vx_into_seq::<Term, Vec<Term>>(v).to_set() == v@.to_set()
+{ axiom_vec_into_seq(v); }
+
+/// A2: `str::parse` never panics; its value is an uninterpreted function of the text
+pub uninterp spec fn parse_spec<F>(s: Seq<char>) -> Option<F>;
+/// R20: the interval arm of set_atom_name is `new_name.parse().transform(|v| *interval = v, |_| err)`
+/// - a closure capturing `&mut`, which Verus does not support.  The arm is replaced by this
+/// helper whose body is that expression; its contract is ASSUMED.
+#[verifier::external_body]
+pub fn vx_set_interval(interval: &mut usize, new_name: &str) -> (r: Result<(), std::io::Error>)
+    ensures match parse_spec::<usize>(new_name@) {
+        Some(v) => r is Ok && *final(interval) == v,
+        None => r is Err && *final(interval) == *old(interval),
+    }
+{
+    use nar_dev_utils::ResultBoost;
+    new_name.parse().transform(
+        |new_interval| { *interval = new_interval },
+        |_| std::io::Error::new(std::io::ErrorKind::InvalidInput, "invalid interval"),
+    )
+}
